@@ -3,6 +3,8 @@ package main
 import (
 	"fmt"
 	"go/token"
+	"go/types"
+	"sort"
 	"strings"
 
 	"golang.org/x/tools/go/ssa"
@@ -206,6 +208,7 @@ func checkC13(c *Ctx) {
 	r.Ob("USE", "RunStmts stops at the first failing statement and returns its error", t.Pos(runStmts.Pos()), okErrArm, "procExit = true; return err")
 
 	callRefComplete(c, "USE-BOUND")
+	c13ErrProp(c, runStmts)
 
 	// ---- (3) exit
 	okExit := false
@@ -365,4 +368,98 @@ func onlyCalledFromInit(t *Tree, f *ssa.Function, depth int) bool {
 		}
 	}
 	return true
+}
+
+// c13ErrProp: a failing statement aborts everything above it. In the run scope of the v1 interpreter (the functions
+// RunStmts reaches in pkg/engine/runtime), every test `e != nil` of the *errchain.PlError a callee returned is looked
+// at: on the non-nil edge the function must not be left with a nil error on every path (that would swallow the
+// callee's failure: the caller of use() would go on, and Run would report success). Only the definite case is
+// reported (the edge's returns are all nil); an edge that returns the error, a new error, or is not a return at all
+// (the value is examined again later) passes.
+func c13ErrProp(c *Ctx, runStmts *ssa.Function) {
+	r, t := c.R, c.T
+	isPlErr := func(ty types.Type) bool {
+		return strings.HasSuffix(types.TypeString(ty, nil), "errchain.PlError")
+	}
+	lastIsErr := func(sig *types.Signature) (int, bool) {
+		n := sig.Results().Len()
+		if n == 0 || !isPlErr(sig.Results().At(n-1).Type()) {
+			return 0, false
+		}
+		return n, true
+	}
+	// run scope: same-package functions reachable from RunStmts by static calls
+	scope := map[*ssa.Function]bool{}
+	var order []*ssa.Function
+	var walk func(f *ssa.Function)
+	walk = func(f *ssa.Function) {
+		if f == nil || scope[f] || len(f.Blocks) == 0 || f.Pkg != runStmts.Pkg {
+			return
+		}
+		scope[f] = true
+		order = append(order, f)
+		allInstrs(f, func(in ssa.Instruction) {
+			walk(calleeOf(in))
+			if mc, ok := in.(*ssa.MakeClosure); ok {
+				if fn, ok := mc.Fn.(*ssa.Function); ok {
+					walk(fn)
+				}
+			}
+		})
+	}
+	walk(runStmts)
+	sort.Slice(order, func(i, j int) bool { return relName(order[i]) < relName(order[j]) })
+	nTests := 0
+	for _, f := range order {
+		if _, ok := lastIsErr(f.Signature); !ok {
+			continue
+		}
+		k := 0
+		for _, b := range f.Blocks {
+			iff, ok := b.Instrs[len(b.Instrs)-1].(*ssa.If)
+			if !ok {
+				continue
+			}
+			bo, ok := iff.Cond.(*ssa.BinOp)
+			if !ok || (bo.Op != token.NEQ && bo.Op != token.EQL) {
+				continue
+			}
+			var ev ssa.Value
+			switch {
+			case isNilConst(bo.Y) && isPlErr(bo.X.Type()):
+				ev = bo.X
+			case isNilConst(bo.X) && isPlErr(bo.Y.Type()):
+				ev = bo.Y
+			default:
+				continue
+			}
+			// the tested value is a callee's error result
+			var call *ssa.Call
+			switch x := ev.(type) {
+			case *ssa.Call:
+				call = x
+			case *ssa.Extract:
+				if cl, ok := x.Tuple.(*ssa.Call); ok && x.Index == cl.Call.Signature().Results().Len()-1 {
+					call = cl
+				}
+			}
+			if call == nil {
+				continue
+			}
+			si := 0
+			if bo.Op == token.EQL {
+				si = 1
+			}
+			nTests++
+			k++
+			callee := "a function value"
+			if sc := call.Call.StaticCallee(); sc != nil {
+				callee = sc.Name()
+			}
+			cls := retClassFrom(b, si)
+			r.Ob("ERR-PROP", fmt.Sprintf("%s: failure of %s (#%d) is not swallowed", relName(f), callee, k), t.Pos(bo.Pos()), cls != "nil",
+				"on the edge where the callee's error is non-nil the function returns: "+cls+" — a nil return there turns a failing statement into a successful one: the scripts above it (through use()) carry on and Run reports no error")
+		}
+	}
+	r.FloorN("error tests in the v1 run scope", nTests, 20)
 }
